@@ -658,8 +658,10 @@ func (st *StateDB) Copy() *StateDB {
 	for addr := range st.stateObjectsDirty {
 		if _, exist := state.stateObjects[addr]; !exist {
 			state.stateObjects[addr] = st.stateObjects[addr].deepCopy(state)
-			state.stateObjectsDirty[addr] = struct{}{}
 		}
+		// mark it dirty even when the pending loop above already copied the object: otherwise Commit of
+		// the copy skips its code, delegation list and storage trie
+		state.stateObjectsDirty[addr] = struct{}{}
 	}
 
 	for hash, logs := range st.logs {
